@@ -15,4 +15,41 @@ var plans = []PropertyPlan{
 	},
 }
 
+func init() {
+	plans = append(plans,
+		PropertyPlan{
+			ID: "C01", Level: "exploration",
+			Families: []FamilyPlan{{Name: "c01", Quick: 320, Thorough: 12000, Chunk: 10}, {Name: "c01cmd", Quick: 24, Thorough: 600, Chunk: 3}},
+			Rule:     "each run = one generated closed loop (1-2 fans of kind hwmon/file/cmd; limits configured or derived from stored curve data; neverStop on/off; identity/sparse/quantised PWM maps from configuration or from the real sweep; direct, rate-limited, default and random-gain PID; absurd temperature steps incl. int extremes; rotor stalls; read/write faults during regulation; slow I/O) run by the real controller + monitors for 15-45 virtual s. Oracle at every PWM write issued from the regulating cycle: value in reference image set {M[k]: k nearest supported input of x, lo<=x<=hi}. distinct = scenario hash; non-trivial = at least one regulating write was judged",
+			Probes:   []string{"regulating-writes", "write-at-floor", "write-at-ceiling"},
+			Assume:   []string{"file/cmd fans have fixed limits 0/255 (the property names a configured/measured minimum only for hwmon fans)", "run-time raises of the minimum are not added to the floor (weaker, sound)", "faults are injected only once regulation has begun, so the swept map equals the driver model's"},
+			RealStub: realStubL1,
+		},
+		PropertyPlan{
+			ID: "C02", Level: "exploration",
+			Families: []FamilyPlan{{Name: "c02", Quick: 240, Thorough: 8000, Chunk: 10}, {Name: "c02cmd", Quick: 16, Thorough: 400, Chunk: 2}},
+			Rule:     "each run = one generated closed loop with neverStop fans (hwmon with configured or curve-derived minimum, file, cmd) through identity read-back so that the request equals the PWM file content at each cycle end; plants with 0-2 rotor-stall episodes (some permanent) or fans that never spin; all algorithms; 30-90 virtual s. Oracle per cycle: request >= reference minimum; at a raise the request is strictly higher; after r raises request >= minimum + r; reported minimum never decreases. distinct = scenario hash; non-trivial = the run contained a stall episode or a raise",
+			Probes:   []string{"raise", "raise-with-min>1"},
+			Assume:   []string{"requests are observed as PWM file content (identity map, read-back-faithful driver)", "startPwm is never configured without minPwm in this family (the text names the configured minPwm, else the measured one)"},
+			RealStub: realStubL1,
+		},
+		PropertyPlan{
+			ID: "C10", Level: "exploration",
+			Families: []FamilyPlan{{Name: "c10", Quick: 200, Thorough: 6000, Chunk: 8}, {Name: "c10cmd", Quick: 12, Thorough: 200, Chunk: 1, SeedTimeout: 300 * time.Second}},
+			Rule:     "each run = one neverStop fan (hwmon/file/cmd) with RPM input, constant curve value, rpmRollingWindowSize n in {1,2,3,5,10,20,50}; the rotor stalls at a seeded instant after it had been spinning (or it never spins); some stalls end by themselves; some fans have a 0-3 step range so that the maximum is reached. Oracle in counted RPM polls: a raise within 20n+20 polls of continuous 0 RPM, again after every raise; at the maximum with 0 RPM for the same bound: error reported, regulation of that fan stopped, fan restored (C03 predicate). distinct = scenario hash; non-trivial = a stall episode was observed",
+			Probes:   []string{"stall-episode", "raise"},
+			Assume:   []string{"the constant 20 in the bound 20n+20 is an oracle parameter chosen from the property's wording (tens of polls, not thousands), not from the code", "control cycles run at least as often as RPM polls in this family"},
+			RealStub: realStubL1,
+		},
+		PropertyPlan{
+			ID: "C12", Level: "exploration",
+			Families: []FamilyPlan{{Name: "c12", Quick: 240, Thorough: 8000, Chunk: 10}},
+			Rule:     "each run = closed loop with full-range fans (min 0, max 255) and the direct algorithm, where the request equals the curve value; maps from the configuration (sparse, plateaus) or from the real sweep against a quantising driver; every cycle compares the write (or the decision not to write) with the reference nearest-supported-input computation. distinct = scenario hash; non-trivial = at least one write judged",
+			Probes:   []string{"c12-writes-judged", "c12-skips-judged", "c12-tie"},
+			Assume:   []string{"requests outside 0..255 are unreachable through the running system and not covered", "the request is taken to be the curve value (full-range fan, direct algorithm, C06 checks the curve value)"},
+			RealStub: realStubL1,
+		},
+	)
+}
+
 var _ = time.Second
